@@ -252,6 +252,19 @@ def ref_ap(tp_values, num_gt):
     return area
 
 
+def ref_heading_agreement(q_est, q_gt, flat=1e-9):
+    """Heading agreement of a pair: 1 - |heading difference| / pi with the difference wrapped into [0, pi].
+
+    Defined here only for boxes standing flat on the ground (pure yaw orientations), where every reading of
+    "heading" coincides; returns None otherwise.
+    """
+    qa, qb = rm.q_normalize(q_est), rm.q_normalize(q_gt)
+    if max(abs(qa[1]), abs(qa[2]), abs(qb[1]), abs(qb[2])) > flat:
+        return None
+    d = abs(rm.wrap(rm.q_yaw(qa) - rm.q_yaw(qb)))
+    return min(1.0, max(0.0, 1.0 - d / math.pi))
+
+
 # ------------------------------------------------------------------------------------------------------
 # C05: CLEAR
 # ------------------------------------------------------------------------------------------------------
